@@ -523,3 +523,30 @@ Proof. split; [reflexivity|vm_compute; discriminate]. Qed.
 
 Lemma routes_model_unambiguous : forallb (fun r => table_unambiguous (rt_parsers r)) routes_model = true.
 Proof. vm_compute. reflexivity. Qed.
+
+(* ------------------------------------------------------------------------------------------ *)
+(** * 6. The routes predicted from the route table *)
+
+Lemma find_route_in : forall rs h r, find_route rs h = Some r -> In r rs.
+Proof. intros rs h r H. unfold find_route in H. now apply find_some in H. Qed.
+
+Lemma g_predict_char : forall rs q, routes_succeed_2xx rs = true -> is_some (find_route rs (g_handler q)) = true ->
+  (g_malformed rs q = true -> expect_is_error (g_predict rs q) = true) /\
+  (g_malformed rs q = false -> g_predict rs q = Exact C2xx) /\
+  g_predict rs q <> Exact Crash /\ g_predict rs q <> Exact Hang.
+Proof.
+  intros rs q H2 Hf. unfold g_malformed, g_predict, generic_outcome.
+  destruct (content_encoding (g_ce q) (g_gz_ok q)) as [|c] eqn:Hce.
+  - destruct (find_route rs (g_handler q)) as [r|] eqn:Hr; [|discriminate].
+    destruct (route_dispatch r (g_ct q)); [|repeat split; try discriminate; reflexivity].
+    destruct (g_wire_ok q); cbn [negb]; [|repeat split; try discriminate; reflexivity].
+    unfold routes_succeed_2xx in H2. rewrite forallb_forall in H2. specialize (H2 r (find_route_in _ _ _ Hr)).
+    apply andb_true_iff in H2 as [Ha Hb]. apply Z.leb_le in Ha. apply Z.ltb_lt in Hb.
+    unfold status_cls. destruct (Z.ltb_spec (rt_status r) 300) as [_|Hge]; [|lia].
+    repeat split; try discriminate; reflexivity.
+  - pose proof (content_encoding_status_is_error _ _ _ Hce) as He.
+    repeat split; try discriminate; try (intros _; exact He); destruct c; discriminate.
+Qed.
+
+Lemma routes_model_succeed_2xx : routes_succeed_2xx routes_model = true.
+Proof. vm_compute. reflexivity. Qed.
